@@ -39,13 +39,6 @@ open CR.Xsd CR.XmlNum CR.XmlW
 
 /-! ### the keyed elements of the document tree -/
 
-/-- the ids the key selector sees, in selector order: lanelets, signs, lights, intersections, the four obstacle families,
-    planning problems, and the incomings of the intersections -/
-def docIds (d : DocD) : List Int :=
-  d.lanelets.map (·.id) ++ d.signs.map (·.id) ++ d.lights.map (·.id) ++ d.intersections.map (·.id) ++
-  d.statics.map (·.id) ++ d.dynamics.map (·.id) ++ d.phantoms.map (·.id) ++ d.envs.map (·.id) ++ d.problems.map (·.id) ++
-  d.intersections.flatMap (fun x => x.incomings.map (·.id))
-
 theorem keyPaths_eq : schema.keyPaths.eraseDups =
     [["lanelet"], ["trafficSign"], ["trafficLight"], ["intersection"], ["staticObstacle"], ["dynamicObstacle"],
      ["phantomObstacle"], ["environmentObstacle"], ["planningProblem"], ["intersection", "incoming"]] := by decide
